@@ -24,7 +24,7 @@ def space(tier):
     q = tier == 'quick'
     return {'co_oxidation order': [2, 3, 4, 5] if q else [2, 3, 4, 5, 6, 7], 'signaling_cascade d': [2, 3, 4] if q else [2, 3, 4, 5],
             'toll_station': 'lanes 2-4 x cars 1-3', 'two_step m': [1, 2, 3], 'qft n': list(range(1, 7 if q else 9)), 'qfan': [1, 2, 3] if q else [1, 2, 3, 4],
-            'exciton n': list(range(2, 7 if q else 9)), 'ising d': list(range(2, 9)), 'fpu d': [2, 3, 4, 5] if q else [2, 3, 4, 5, 6],
+            'exciton n': list(range(2, 7 if q else 9)), 'ising d': list(range(2, 9)), 'fpu d': [2, 3, 4, 5, 6, 7] if q else [2, 3, 4, 5, 6, 7, 8],
             'kuramoto d': [1, 2, 3, 4, 5], 'fractals': 'dimension 1-3 (2-4), level 1-3'}
 
 
@@ -57,7 +57,7 @@ def cases(tier):
     for d in range(2, 9):
         for J, h in list(itertools.product([1.0, -0.5, 0.0], [0.0, 0.3, -2.0])) + [(1e-9, 0.0), (-3e-10, 0.0), (1e-9, 2e-9)]:
             yield {'m': 'ising', 'd': d, 'J': J, 'h': h}
-    for d in ([2, 3, 4, 5] if q else [2, 3, 4, 5, 6]):
+    for d in ([2, 3, 4, 5, 6, 7] if q else [2, 3, 4, 5, 6, 7, 8]):       # the exact TT ranks grow with d (d + 3 in the middle): no fixed cap is harmless
         yield {'m': 'fpu', 'd': d}
     for d in (1, 2, 3, 4, 5):
         for wk in ('lin', 'zero', 'neg', 'intarray', 'intlist'):
